@@ -80,6 +80,9 @@ pub fn c05_inits() -> Vec<Init> {
         "A: 1\n\nB: 2\n# r",
         "# only a comment\n",
         "\n",
+        // paragraphs with identical text: only the handles can tell them apart
+        "A: 1\n\nA: 1\n",
+        "A: 1\n\nB: 2\n\nA: 1\n",
     ]
     .iter()
     .map(|t| Init::Text(s(t)))
@@ -97,9 +100,10 @@ pub fn c05_inits() -> Vec<Init> {
     .collect()
 }
 
-const KEYS: [&str; 3] = ["A", "B", "C"];
+/// (the fourth is the first in another letter case: to the model simply another name)
+const KEYS: [&str; 4] = ["A", "B", "C", "a"];
 /// thorough: one more key with every punctuation class a field name may contain
-const KEYS_T: [&str; 4] = ["A", "B", "C", "X-y#1"];
+const KEYS_T: [&str; 5] = ["A", "B", "C", "a", "X-y#1"];
 
 /// Initial documents from the document generator: every layout with at most one deviation (thorough: two on the smaller
 /// skeleton) - comments of every shape, colon spacing, continuation lines, indentation, separators, missing final newline.
@@ -251,8 +255,8 @@ impl EditProp {
         match self.0 {
             Which::C04 => {
                 let vals: &[&str] = match t {
-                    Tier::Quick => &["x", "x\ny", ":c\nd", "#h  "],
-                    Tier::Thorough => &["x", "x\ny", "é  ", ":c\nd", "#h\ny"],
+                    Tier::Quick => &["x", "x\ny", ":c\nd\n\u{e9}z", "#h  "],
+                    Tier::Thorough => &["x", "x\n\u{1f600} w\nz", "é  ", ":c\nd\n\u{e9}z", "#h\ny"],
                 };
                 field_ops(n, vals, match t {
                     Tier::Quick => &KEYS[..],
